@@ -110,8 +110,8 @@ func runChild(c cell, race bool, timeout time.Duration) (*childResult, []raceRep
 		}
 	}
 	out := outb.String()
-	if len(out) > 3000 {
-		out = out[len(out)-3000:]
+	if len(out) > 1<<18 { // keep the head: a crash prints the faulting goroutine first
+		out = out[:1<<18]
 	}
 	if werr != nil && r.Err == "" {
 		// exit status 66 is the race runtime's way of saying "races were reported"
@@ -130,7 +130,7 @@ func confineCase(id string, c cell) {
 	r, _, out := runChild(c, false, 90*time.Second)
 	if r.Err != "" {
 		// an engine that cannot run is a harness problem, not a verdict: make it visible
-		w.Fail("harness", "child-error", r.Err+" | "+out)
+		w.Fail("harness", "child-error", r.Err+" | "+tail(out, 3000))
 		w.End()
 		return
 	}
@@ -164,6 +164,56 @@ func confineCase(id string, c cell) {
 	w.End()
 }
 
+func tail(s string, n int) string {
+	if len(s) > n {
+		return s[len(s)-n:]
+	}
+	return s
+}
+
+// ccCrash: did the child die in the goroutine that was calling
+// Engine.CountConnections -> baseLoadBalancer.iterate?  Returns the frames of the
+// faulting goroutine (the first `goroutine N [running]:` block after the panic line).
+func ccCrash(out string) (string, bool) {
+	i := strings.Index(out, "panic: ")
+	if j := strings.Index(out, "fatal error: "); j >= 0 && (i < 0 || j < i) {
+		i = j
+	}
+	if i < 0 {
+		return "", false
+	}
+	rest := out[i:]
+	k := strings.Index(rest, "[running]:")
+	if k < 0 {
+		return "", false
+	}
+	blk := rest[k:]
+	if e := strings.Index(blk, "\n\n"); e >= 0 {
+		blk = blk[:e]
+	}
+	if !strings.Contains(blk, gnetPrefix+".Engine.CountConnections") || !strings.Contains(blk, "baseLoadBalancer).iterate") {
+		return "", false
+	}
+	var fns []string
+	for _, ln := range strings.Split(blk, "\n") {
+		if strings.HasPrefix(ln, "\t") || strings.HasPrefix(ln, "[running]") || strings.TrimSpace(ln) == "" {
+			continue
+		}
+		if p := strings.LastIndex(ln, "("); p > 0 {
+			ln = ln[:p]
+		}
+		fns = append(fns, strings.TrimSpace(ln))
+		if len(fns) == 8 {
+			break
+		}
+	}
+	head := rest
+	if e := strings.Index(head, "\n"); e >= 0 {
+		head = head[:e]
+	}
+	return head + " in " + strings.Join(fns, " < "), true
+}
+
 func min1(x int) int {
 	if x > 0 {
 		return 1
@@ -180,7 +230,16 @@ func stormCase(id string, c cell) {
 		w.Stats.Hist["call/"+k] += v
 	}
 	if r.Err != "" {
-		w.Fail("harness", "child-error", r.Err+" | "+out)
+		if stack, ok := ccCrash(out); ok && c.Scenario == "ccstart" {
+			// the cc-during-start race, observed as a crash instead of (or in addition to) a race
+			// report: the torn read of the slice the engine is appending to yields a nil / wild
+			// *eventloop.  Only this stack is attributed to the finding.
+			w.Tag("race-crash")
+			w.Fail("data-race-crash", "Engine.CountConnections|baseLoadBalancer.iterate|crash",
+				"the child crashed inside Engine.CountConnections while the engine was starting ("+r.Err+"): "+stack)
+		} else {
+			w.Fail("harness", "child-error", r.Err+" | "+tail(out, 3000))
+		}
 	}
 	calls := 0
 	for k, v := range r.Counts {
